@@ -110,12 +110,12 @@ def build_grid(tier, seed):
         both(thr / 2.5)
     # seeded random points: log-uniform magnitudes with random mantissas, and uniform points in the squashing ranges
     rnd = random.Random(1000003 * seed + (7 if thorough else 3))
-    for _ in range(4000 if thorough else 300):
+    for _ in range(12000 if thorough else 300):
         e = rnd.uniform(-320, 300)
         add(rnd.choice((1, -1)) * rnd.uniform(1, 10) * 10.0 ** e)
-    for _ in range(4000 if thorough else 300):
+    for _ in range(12000 if thorough else 300):
         add(rnd.uniform(-9, 9))
-    for _ in range(1000 if thorough else 100):
+    for _ in range(3000 if thorough else 100):
         add(rnd.choice(bps) * rnd.choice((1, -1)) + rnd.uniform(-1, 1) * 2.0 ** -rnd.randint(1, 50))
     return sorted(pts)
 
